@@ -206,6 +206,7 @@ class LFUCache(Cache[_KT, _VT]):
 
         if k in self.cache:
             node = self.cache[k]
+            node.data.value = v
             self._inc_freq(node)
         else:
             if len(self.cache) >= self.max_size:
